@@ -39,8 +39,9 @@ LEVEL_TEXT = ("Exploration: about a thousand (network, replacement history) case
               "md-grid is checked per mortar side for conservation (column sums), constant preservation (row sums), "
               "the transpose relations, the Kronecker expansion and - where the history admits it - the exact overlap "
               "weights computed independently from node coordinates.")
-LEVEL_NOTE = ("Replacement histories only for 2-d networks (1-d mortars); 3-d networks (2-d mortars) are checked in the "
-              "matching state only, because cart_grid fractures are not simplex grids (match_2d requires simplices). "
+LEVEL_NOTE = ("Replacement histories for 2-d networks (1-d mortars) in both tiers; structured 3-d networks are checked in the "
+              "matching state only (match_2d requires simplex grids); in the thorough tier gmsh-meshed 3-d networks have the "
+              "mortar / fracture grid of an isolated fracture replaced by the grid of a second mesh (algebraic invariants only). "
               "Refinement ratios 2-4, lattices up to 4x4. Finds violations, does not prove absence.")
 DESIGN_REF = "DESIGN.md section 4, C26"
 ASSUMPTIONS = [
@@ -48,7 +49,7 @@ ASSUMPTIONS = [
     "remesh_1d only for fractures / mortar sides without internal boundaries (its docstring: use with care there)",
     "replacement grids cover exactly the same segment as the grid they replace",
 ]
-REQUIRED = {"dim2": 0.4, "dim3": 0.08, "ops0": 0.1, "op-mortar": 0.2, "op-secondary": 0.2, "op-primary": 0.03,
+REQUIRED = {"dim2": 0.4, "dim3": 0.08, "ops0": 0.1, "op-mortar": 0.15, "op-secondary": 0.12, "op-primary": 0.03,
             "how-refine": 0.2, "how-remesh": 0.1, "has-0d-interface": 0.15, "exact-secondary": 0.3, "exact-primary": 0.3,
             "inexact": 0.05, "one-sided-interface": 0.08}
 
@@ -69,6 +70,8 @@ def _split_fracs(net_s):
 @st.composite
 def _spec(draw, tier):
     big = tier != "quick"
+    if big and draw(st.sampled_from(list(range(20)))) == 19:
+        return draw(_spec_simplex3d())
     net = draw(lattice_net_spec(dims=(2, 2, 2, 3), max_n=4, max_n3=3 if big else 2, max_fracs=3, min_fracs=1))
     if draw(st.booleans()):
         net["phys"] = [draw(_f(0.5, 3.0)) for _ in range(net["dim"])]
@@ -111,6 +114,27 @@ def _spec(draw, tier):
                         op["nn2"] = draw(st.integers(2, 8))
             ops.append(op)
     return {"net": net, "nd": nd, "ops": ops}
+
+
+@st.composite
+def _spec_simplex3d(draw):
+    """3-d network meshed twice by gmsh (two cell sizes); fracture grids / mortar grids of the first mesh are
+    replaced by those of the second (triangulations of the same rectangle: non-matching, match_2d)."""
+    net = draw(lattice_net_spec(dims=(3,), max_n3=3, max_fracs3=2, min_fracs=1))
+    net["phys"] = [draw(_f(0.8, 2.0)) for _ in range(3)]
+    kept = []
+    for f in net["fracs"]:  # FractureNetwork3d does not handle point contacts (documented)
+        if "point-contact-3d" not in Network(dict(net, fracs=kept + [f])).labels:
+            kept.append(f)
+    net["fracs"] = kept
+    isolated = [j for j in range(len(kept)) if not any(j in it["sides"] for it in Network(net).inters)]
+    ops = []
+    if isolated:
+        j = draw(st.sampled_from(isolated))
+        kinds = draw(st.sampled_from([["mortar3"], ["secondary3"], ["mortar3", "secondary3"], ["secondary3", "mortar3"]]))
+        ops = [{"k": k, "frac": j} for k in kinds]
+    h = draw(st.sampled_from([[0.6, 0.35], [0.35, 0.6], [0.5, 0.3], [0.45, 0.45]]))
+    return {"mesher": "gmsh3", "net": net, "nd": draw(st.sampled_from([1, 3])), "ops": ops, "h": h}
 
 
 def strategy(tier):
@@ -157,6 +181,18 @@ def warmup():
 
 
 # ------------------------------------------------------------------------------- helpers
+def _gmsh3(net_s, net, h, fname):
+    import porepy as pp
+
+    from ..gen.fracnets import lattice_frac_points
+    from ..gen.grids import scratch_file
+
+    box = {"xmin": 0.0, "xmax": net.phys[0], "ymin": 0.0, "ymax": net.phys[1], "zmin": 0.0, "zmax": net.phys[2]}
+    fr = [pp.PlaneFracture(p) for p in lattice_frac_points(net_s)]
+    network = pp.create_fracture_network(fr, pp.Domain(box))
+    return pp.create_mdg("simplex", {"cell_size": h * min(net.phys)}, network, file_name=scratch_file(fname))
+
+
 def _new_1d(g, how, r=None, nn=None):
     import porepy as pp
 
@@ -211,11 +247,18 @@ def check(spec):
     Nd = net.dim
     L = net.scale
     tol = 1e-9
-    mdg = build_lattice_mdg(net_s)
+    simplex3 = spec.get("mesher") == "gmsh3"
+    mdg2 = None
+    if simplex3:
+        mdg = _gmsh3(net_s, net, spec["h"][0], "c26_a.msh")
+        if spec["ops"]:
+            mdg2 = _gmsh3(net_s, net, spec["h"][1], "c26_b.msh")
+    else:
+        mdg = build_lattice_mdg(net_s)
     host = mdg.subdomains(dim=Nd)[0]
     frac = {g.frac_num: g for g in mdg.subdomains(dim=Nd - 1)}
     labels = [f"dim{Nd}", f"nd{spec['nd']}", f"ops{len(spec['ops'])}", f"fracs{len(frac)}"]
-    labels.append("mesher-tensor" if net_s.get("coords") else "mesher-cart")
+    labels.append("mesher-gmsh3" if simplex3 else ("mesher-tensor" if net_s.get("coords") else "mesher-cart"))
 
     # geometric side (+1 / -1 w.r.t. a fixed normal of the fracture) of each mortar side, from the matching state
     normal = {}
@@ -242,6 +285,18 @@ def check(spec):
     prim_ops = 0
     for op in spec["ops"]:
         labels.append("op-" + op["k"])
+        if op["k"] in ("mortar3", "secondary3"):
+            j = op["frac"]
+            host2 = mdg2.subdomains(dim=Nd)[0]
+            frac2 = {g.frac_num: g for g in mdg2.subdomains(dim=Nd - 1)}
+            if op["k"] == "mortar3":
+                intf = mdg.subdomain_pair_to_interface((host, frac[j]))
+                intf2 = mdg2.subdomain_pair_to_interface((host2, frac2[j]))
+                mdg.replace_subdomains_and_interfaces(interface_map={intf: intf2})
+            else:
+                mdg.replace_subdomains_and_interfaces({frac[j]: frac2[j]})
+                frac[j] = frac2[j]
+            continue
         if op["k"] == "primary":
             new_host = build_lattice_mdg(scale_lattice(net_s, op["factor"])).subdomains(dim=Nd)[0]
             mdg.replace_subdomains_and_interfaces({host: new_host})
